@@ -16,6 +16,7 @@ ANCHORS = ["tensor:tensor.nvecs", "sptensor:sptensor.nvecs", "ktensor:ktensor.nv
 EXHAUSTIVE = {"quick": {"(n, r) pairs for every generated shape": "complete"}, "thorough": {"(n, r) pairs for every generated shape": "complete"}}
 NPINT_ARGS = True     # a quarter of the cases pass their integer arguments as NumPy integers (core.Ctx.begin)
 STRIDED_ARGS = True   # a quarter of the cases pass every array argument as a strided, non-contiguous view (core.Ctx.begin)
+SEQ_ARGS = True       # a quarter of the cases pass short integer arrays (mode lists, permutations) as plain lists / tuples (core.Ctx.begin)
 WATCHDOG = {"quick": 600, "thorough": 3000}
 
 
